@@ -303,7 +303,7 @@ func (fc *FnCtx) runDefersPanicking(s *State, pv Val, why string, rk retK) {
 func (fc *FnCtx) repanic(s *State, v Val) {
 	s.panicVal = nil
 	s.defers = nil
-	if v.Dyn == "ErrNaN" {
+	if v.Dyn == "ErrNaN" && !s.ghostOther {
 		fc.atErrNaNPanic(s, "re-panic of ErrNaN")
 		return
 	}
@@ -315,6 +315,11 @@ func (fc *FnCtx) repanic(s *State, v Val) {
 func (fc *FnCtx) atOtherPanic(s *State, v Val, why string) {
 	fc.npaths++
 	fc.otherPanicExits++
+	if s.ghostOther {
+		// the hypothetical foreign panic propagates: that is what the property asks for
+		fc.oblige(s, fc.key+".handler.other", "handler", []string{"C19"}, "a panic whose value is not an ErrNaN propagates", tTrue, "panic")
+		return
+	}
 	env := fc.entryEnv(s)
 	found := false
 	for _, c := range fc.ct.OnPanic {
